@@ -137,13 +137,13 @@ def sigreset():
     return _sigreset[0]
 
 
-def launch_prefix(ignore_pipe=False, fsize=None):
-    return [sigreset()] + (["-i"] if ignore_pipe else []) + (["-f", str(fsize)] if fsize is not None else [])
+def launch_prefix(ignore_pipe=False, fsize=None, block_handled=False):
+    return [sigreset()] + (["-i"] if ignore_pipe else []) + (["-b"] if block_handled else []) + (["-f", str(fsize)] if fsize is not None else [])
 
 
 def run(argv, stdin=b"", env=None, timeout=60, cwd=None, stdin_file=None, stdout_file=None, ignore_pipe=False, fsize=None,
-        stderr_file=None):
-    argv = launch_prefix(ignore_pipe, fsize) + list(argv)
+        stderr_file=None, block_handled=False):
+    argv = launch_prefix(ignore_pipe, fsize, block_handled) + list(argv)
     e = dict(os.environ)
     for k in list(e):
         if k.startswith("VERIF_") and k not in ("VERIF_SCRATCH",):
